@@ -4,6 +4,7 @@ import (
 	"bytes"
 	"flag"
 	"fmt"
+	"image/color"
 	"strings"
 
 	"github.com/reactivego/ivg/decode"
@@ -258,11 +259,26 @@ func driveEnc(args []string) error {
 			// C17: A (any history, possibly failed / mid-path / mid-run / hi-res), then Reset + B on the same Encoder
 			rng := newRand(106)
 			for i := 0; i < *n; i++ {
-				a := genProgram(rng, &progOpts{maxPaths: 3, maxRun: 5, arcs: true, illegal: []float64{0, 0.1}[i%2], hires: true, selreads: true, noReset: i%3 == 0, openEnd: true, specials: i%5 == 0})
+				a := genProgram(rng, &progOpts{maxPaths: 3, maxRun: 5, arcs: true, illegal: []float64{0, 0.1}[i%2], hires: true, selreads: true, noReset: i%3 == 0, openEnd: true, specials: i%5 == 0, meta: i%4 == 1})
 				if i%3 == 1 && len(a) > 3 { // cut A short: mid-path, mid-run
 					a = a[:1+rng.Intn(len(a)-1)]
 				}
 				bprog := genProgram(rng, &progOpts{maxPaths: 3, maxRun: 5, arcs: true, meta: i%2 == 0, hires: i%4 == 0, gradients: true})
+				if i%5 == 0 {
+					// the same (custom) suggested palette before and after the Reset, another viewBox after it
+					pal := defaultPal()
+					pal[0], pal[7] = color.RGBA{0x30, 0x66, 0x07, 0xff}, color.RGBA{0x10, 0x20, 0x30, 0x80}
+					ra := mkCall("Reset", -32, -32, 32, 32)
+					ra.Pal = palJ(pal)
+					rb := mkCall("Reset", -24, -20, 24, 28)
+					rb.Pal = palJ(pal)
+					if len(a) > 0 && a[0].Op == "Reset" {
+						a[0] = ra
+					} else {
+						a = append([]Call{ra}, a...)
+					}
+					bprog[0] = rb
+				}
 				h := append(append([]Call{}, a...), bprog...)
 				var e encode.Encoder
 				w := enc.Next()
